@@ -614,6 +614,17 @@ def ncep_entries_stay(ctx):
         ctx.notes.append('ncep entries: registration unavailable: %r' % (e,))
         ctx.count('ncep_registration_unavailable')
         return
+    # what with_extra_entries registered before (063200) is still there after this second registration - the scanner of a stream
+    # does exactly this for every definition message: invalidate(), add_extra_entries()
+    try:
+        el = tg.template_from_ids(63200).members[0]
+        ctx.count('earlier_extra_entries_rechecked')
+        if (type(el).__name__.startswith('Undefined')) or (el.scale, el.refval, el.nbits) != (0, 0, 8):
+            ctx.violate('extra-entries/earlier-registration-lost', 'element 063200 registered before a second invalidate() + add_extra_entries() is now %s'
+                        % type(el).__name__, dict(part='ncep', id=63200))
+    except Exception as e:
+        ctx.violate('extra-entries/earlier-registration-lost', 'element 063200 registered before a second invalidate() + add_extra_entries() now raises %r'
+                    % (e,), dict(part='ncep', id=63200), exc=e)
     sids = sorted(int(k) for k in extra_d) + [301011, 301021, 302001]
 
     def table_view():
